@@ -116,26 +116,46 @@ class C12(flow.Spec):
                'connectNamedObjArgs preserves SH (abstract invariant threaded through the pass, ParserTotalConn2.v / ParserTotalPass2.v).  The ONLY step of '
                'ParseAML not covered by a chained no-panic theorem is "the first pass establishes SH"',
                'C12_parse_total_partial_first_pass_shape: the FIRST PASS from the initial state of any table over any pool with R, valid indexes, live '
-               'parentless ScopeBlock root, TM2, lead-less names in the free slots (FN) and no object carrying the new handle never panics and on success leaves an empty scope '
-               'stack and LI (root facts, TM2 for all Methods incl. the new ones, PEND, the structure AND the names of the Scope directives, FN, path objects of the directives are new) '
-               '- frame version of the first pass (ParserTotalFirst2.v), judgements bn (ParserTotalBenign.v) and fk (ParserTotalFreeName.v: free slots keep lead-less names), invariant step (ParserTotalPass1.v).  '
+               'parentless ScopeBlock root, TM2 and no object carrying the new handle never panics and on success leaves an empty scope '
+               'stack and LI (root facts, TM2 for all Methods incl. the new ones, PEND, the structure AND the names of the Scope directives - zero names, newObject clears the name of a reused slot -, path objects of the directives are new) '
+               '- frame version of the first pass (ParserTotalFirst2.v), judgement bn (ParserTotalBenign.v), invariant step (ParserTotalPass1.v).  '
                'C12_parse_total_namestring_good: a four-byte []byte returned by parseNameString starts with a name character, \\ or ^ '
                '(ParserTotalNameLex.v); the judgement gpk (ParserTotalGoodPath.v, a small pre/post logic over the tree) carries "every name-path '
                'object holds a good path" through the first pass.  '
                'C12_parse_total_never_panics / C12_parse_total_parseAML_never_panics: END TO END and UNCONDITIONAL - parseAML_body (all six passes, '
                'ANY fuel) resp. parseAML from init_state of any table over any pool NEVER panics and re-establishes R / valid indexes / slices-inside; '
                'the hypotheses speak only about the pool before the call and about sizes: R, valid indexes, live parentless ScopeBlock root, TM2, '
-               'every FREE SLOT carries a name without lead character (FN: no longer needed since newObject clears the name of a reused slot, /repo d18acb2; still a hypothesis of the statement), []byte typing, '
+               '[]byte typing, '
                'slices inside the earlier tables, fresh handle, image of at most 2^28 bytes, and an explicit '
                'quadratic memory bound.  Fuel exhaustion is NOT excluded (fuel is not analysed)',
                'C12_parse_total_first_table_never_panics / C12_parse_total_load_first_table_never_panics: the FIRST TABLE with no abstract hypothesis: '
                'over the pool CreateDefaultScopes builds from the empty tree, ParseAML of the image of ANY payload of at most 10000 bytes never panics '
                '(load [payload] never has outcome class 2); the size bound is what the quadratic memory hypothesis allows (ParserTotalLoad.v).  '
+               'C12_parse_total_post_root: when ParseAML returns SUCCESS the pool again has a live parentless ScopeBlock in slot 0 and the []byte typing '
+               '(an abstract tree invariant K is threaded through parseDeferredBlocks / resolveMethodCalls / connectNonNamedObjArgs: sections Inv of '
+               'ParserTotalNonNamed.v / ParserTotalCalls.v with hypotheses Kmove / Kupd, deferred_tail_post, rest_post, rest2_post, parseAML_body_post; '
+               'instance K = "slot 0 holds a ScopeBlock").  C12_parse_total_handles: no function of any pass changes the handle of a slot or of the '
+               'parser, new objects get the handle of the table (judgement hb, ParserTotalHandle.v).  '
+               'C12_parse_total_parseAML_keeps_invariant_mod: a successful ParseAML re-establishes INV (= the pool hypotheses of the end-to-end '
+               'theorem + handle bound) for the next handle MODULO ONE conjunct, RES = "the Methods of the returned pool are typed (TM2)".  '
                'C12_parse_total_load_sequence_never_panics_mod / C12_parse_total_load_never_panics_mod: loading ANY NUMBER of tables never panics '
-               'MODULO the residue RES about each returned state (root facts, Method typing TM2, lead-less names in free slots, []byte typing, handle '
-               'bound): INV (the hypotheses of the end-to-end theorem) holds for the default scopes, R / valid indexes / slices-inside are re-established, '
-               'the rest of INV is NOT yet derived for the post-state (missing: TM2 and root facts through the last two passes, names of the two '
-               'children of a Scope directive through free)',
+               'MODULO that residue at each step (SEQ: fits = image_small + quadratic memory bound over the pool at that moment, and RES of each '
+               'returned state); non-vacuity: a concrete two-table load (C12_load_sequence_nonvacuous).  NOT proved: ParseAML re-establishes TM2.  '
+               'C12_parse_total_partial_resolveMethodCalls_keeps_methods / _connectNonNamedObjArgs_keeps_methods / C12_parse_total_methods_TM3_TM2: '
+               'the concrete Method typing TM3 (below) implies TM2 and IS preserved by each of the last two passes from any state with R, valid '
+               'indexes, slices inside, []byte typing and a live parentless root (ParserTotalMeth.v; non-vacuity on a pool that holds a Method).  '
+               'TM2 as stated is not an invariant of resolveMethodCalls / connectNonNamedObjArgs in the abstract (a Method whose first child is a '
+               'name-path-or-call object or has children satisfies TM2, and the pass may then move the flags argument away); the invariant that is '
+               'preserved is the concrete typing (first child a CHILDLESS pOpIntNamePath object with its row, second a pOpBytePrefix object with its '
+               'row and a number).  TM3 IS threaded through the first pass (LI3), connectNamedObjArgs (SH3), the resolve loop (KS3), the last two '
+               'passes, and parseDeferredBlocks for the Methods that existed before it (C12_parse_total_partial_deferred_keeps_old_methods: DEF3new -> DEF3).  '
+               'C12_parse_total_parseAML_keeps_invariant_mod_deferred / C12_parse_total_load_sequence_never_panics_mod_deferred / '
+               'C12_parse_total_load_never_panics_mod_deferred: MODULO THE SINGLE PROPOSITION DEF3new ("the Method objects CREATED by a successful '
+               'parseDeferredBlocks - Methods inside While / Buffer bodies - satisfy TM3"; a statement about the model, not about a run) a successful '
+               'ParseAML re-establishes the whole loop invariant INV3 and loading ANY NUMBER of tables never panics, the only hypothesis about the '
+               'payloads being the sizes (SEQ3: image_small and the quadratic memory bound over the pool at each step).  DEF3new is NOT proved: it '
+               'needs a typing of the scope stack in parseModeAllBlocks (the object on top of the scope stack / whose arguments are parsed is never '
+               'the name path of a Method) that the block proof of parseDeferredBlocks does not carry yet',
                'the unproved parts of C12_full_parse_total (no Panic / OutOfFuel and R for the later passes, outcome class of load) are covered '
                'by the correspondence of the extracted model (explicit Panic / OutOfFuel outcomes, all passes modelled) with the real parser '
                'and by the harness monitors (outcome class, watchdog, independent link checker, PrettyPrint)',
